@@ -93,3 +93,234 @@ Proof.
   revert h; induction q as [|b r IH]; simpl; intros h H; [lia|]. destruct H as (H1 & H2 & H3).
   apply IH in H3. unfold ib_end in H3. lia.
 Qed.
+
+Lemma inv_clear_jobs s w : inv s -> inv (set_scan_q [] (set_work_units w (set_retr_q [] s))) /\
+  (masters (set_scan_q [] (set_work_units w (set_retr_q [] s))) <= masters s)%nat.
+Proof.
+  intros [Ic Ip Ir Is Iu If Ij Il Ie Im Id Ib Iq]. unfold masters, all_jobs, nparse in *.
+  rewrite Forall_app in Ij. destruct Ij as [Ij1 Ij2].
+  split.
+  - constructor; unfold all_jobs, nparse; nrm; simpl; auto.
+    all: try (eapply Forall_impl; [|exact Ij2]; intros; eapply job_ok_ext; [| |eassumption]; nrm; auto).
+    all: try (intro id; specialize (Il id); rewrite filter_len_app in Il; lia).
+    all: try (rewrite filter_len_app in Ie; lia).
+  - nrm. simpl. rewrite filter_len_app. lia.
+Qed.
+
+Lemma inv_clear_input s :
+  inv s -> x_parsing_done s = true -> x_retr_q s = [] -> x_scan_q s = [] -> masters s = 0%nat ->
+  inv (set_head_offs (x_head_offs s + sum_sizes (x_input_q s))
+         (fold_left (fun a b => release_blk b a) (x_input_q s) (set_input_q [] s))).
+Proof.
+  intros [Ic Ip Ir Is Iu If Ij Il Ie Im Id Ib Iq] PD RQ SQ M0. unfold masters, all_jobs, nparse in *.
+  constructor; unfold all_jobs, nparse; nrm; rewrite ?RQ, ?SQ in *; auto.
+  all: try (simpl; apply contig_sum in Ic; auto; fail).
+  all: try congruence.
+  all: try (eapply Forall_impl; [|exact Ij]; intros; eapply job_ok_ext; [| |eassumption]; nrm; auto; fail).
+  all: try (apply Forall_forall; intros j Hj K; exfalso; simpl in M0;
+    assert (In j (filter (jm (x_unords s)) (run_jobs (x_running s)))) by (apply filter_In; auto);
+    destruct (filter (jm (x_unords s)) (run_jobs (x_running s))); [contradiction|discriminate]).
+Qed.
+
+Lemma inv_parse_finish cfg g s :
+  inv s -> masters s = 0%nat -> nparse s = 0%nat -> inv (parse_finish cfg g s).
+Proof.
+  intros I M0 N0. unfold parse_finish.
+  set (pb' := mkdbs _ _). clearbody pb'.
+  set (sA := set_parser_bs pb' (set_parsing_done true (set_parse_token true (set_closed true s)))).
+  assert (IA : inv sA /\ masters sA = 0%nat).
+  { destruct I as [Ic Ip Ir Is Iu If Ij Il Ie Im Id Ib Iq]. unfold masters, all_jobs, nparse in *. subst sA. split; [|nrm; auto].
+    constructor; unfold all_jobs, nparse; nrm; auto.
+    all: try discriminate.
+    all: try (simpl; lia). }
+  destruct IA as (IA & MA).
+  assert (PDA : x_parsing_done sA = true) by (subst sA; nrm; auto). clearbody sA.
+  match goal with |- inv (if ?c then _ else _) => destruct c end.
+  { eapply inv_view; [|exact IA]. unfold fail. view_tac. }
+  set (sB := if c_finish_drops_link cfg then set_unords (drop_links (x_retr_q sA) (x_unords sA)) sA else sA).
+  assert (IB : inv sB /\ masters sB = 0%nat /\ x_parsing_done sB = true).
+  { subst sB. destruct (c_finish_drops_link cfg); [|auto].
+    destruct (inv_stems sA (drop_links (x_retr_q sA) (x_unords sA))) as (A & B); auto.
+    - apply drop_links_stems.
+    - apply nodup_drop_links. apply IA.
+    - split; [auto|split; [lia|nrm; auto]]. }
+  destruct IB as (IB & MB & PDB). clearbody sB.
+  set (sC := set_scan_q [] (set_work_units (x_work_units sB + N.of_nat (length (x_retr_q sB))) (set_retr_q [] sB))).
+  destruct (inv_clear_jobs sB (x_work_units sB + N.of_nat (length (x_retr_q sB))) IB) as (IC & MC). fold sC in IC, MC.
+  assert (PDC : x_parsing_done sC = true) by (subst sC; nrm; auto).
+  assert (RQC : x_retr_q sC = []) by (subst sC; nrm; auto).
+  assert (SQC : x_scan_q sC = []) by (subst sC; nrm; auto).
+  clearbody sC.
+  set (sD := set_unords (flush_unords (x_unords sC)) sC).
+  destruct (inv_detached sC (flush_unords (x_unords sC))) as (ID & MD); auto.
+  { apply flush_unords_spec. } { apply nodup_flush. apply IC. }
+  fold sD in ID, MD.
+  assert (PDD : x_parsing_done sD = true) by (subst sD; nrm; auto).
+  assert (RQD : x_retr_q sD = []) by (subst sD; nrm; auto).
+  assert (SQD : x_scan_q sD = []) by (subst sD; nrm; auto).
+  clearbody sD.
+  eapply inv_view; [|apply (inv_clear_input sD ID PDD RQD SQD ltac:(lia))]. view_tac.
+Qed.
+
+Lemma jm_detach id us j : jm (upd_unord id (u_detach true) us) j = true -> jm us j = true \/ links id j = true.
+Proof.
+  unfold jm, links. destruct (r_link j) as [id2|]; auto. unfold upd_unord. rewrite existsb_map, !existsb_exists.
+  intros (u & Hu & E). destruct (u_id u =? id) eqn:K.
+  - right. simpl in E. bool_hyps. simpl. apply N.eqb_eq in K. apply N.eqb_eq. match goal with A : (u_id u =? id2) = true |- _ => apply N.eqb_eq in A end. congruence.
+  - left. exists u. auto.
+Qed.
+
+Lemma inv_adopt id s :
+  inv s -> masters s = 0%nat -> nparse s = 0%nat -> x_parse_token s = false ->
+  (forall j, In j (run_jobs (x_running s)) -> links id j = true -> x_head_offs s <= d_off (r_cur j)) ->
+  inv (set_unords (upd_unord id (u_detach true) (x_unords s)) s).
+Proof.
+  intros [Ic Ip Ir Is Iu If Ij Il Ie Im Id Ib Iq] M0 N0 T0 HR. unfold masters, all_jobs, nparse in *.
+  constructor; unfold all_jobs, nparse; nrm; auto.
+  - unfold upd_unord. apply Forall_forall. intros u Hu. apply in_map_iff in Hu. destruct Hu as (u0 & <- & H0).
+    rewrite Forall_forall in Iu. specialize (Iu u0 H0). destruct (u_id u0 =? id); auto.
+    destruct Iu as (O1 & O2 & O3). unfold unord_ok, u_detach; simpl. split; [discriminate|auto].
+  - unfold upd_unord. apply Forall_forall. intros u Hu. apply in_map_iff in Hu. destruct Hu as (u0 & <- & H0).
+    rewrite Forall_forall in If. specialize (If u0 H0). destruct (u_id u0 =? id); auto.
+  - eapply Forall_impl; [|exact Ij]. intros j. apply job_ok_stemsj; nrm; auto.
+    intros u Hu. unfold upd_unord in Hu. apply in_map_iff in Hu. destruct Hu as (u0 & <- & H0). exists u0. split; auto.
+    destruct (u_id u0 =? id); unfold stemsj, u_detach; simpl; tauto.
+  - rewrite T0, N0. simpl.
+    pose proof (filter_len_mono2 (jm (upd_unord id (u_detach true) (x_unords s))) (jm (x_unords s)) (links id)
+                 (x_retr_q s ++ run_jobs (x_running s)) (fun x _ => jm_detach id (x_unords s) x)) as LE.
+    specialize (Il id). lia.
+  - apply Forall_forall. intros j Hj K. destruct (jm_detach _ _ _ K) as [K1|K1]; [|auto].
+    exfalso. assert (In j (filter (jm (x_unords s)) (x_retr_q s ++ run_jobs (x_running s)))) by (apply filter_In; split; auto; apply in_or_app; auto).
+    destruct (filter (jm (x_unords s)) (x_retr_q s ++ run_jobs (x_running s))); [contradiction|discriminate].
+  - rewrite map_id_upd; auto.
+Qed.
+
+Lemma inv_parse_ok cfg lv crc s :
+  inv s -> masters s = 0%nat -> nparse s = 0%nat -> x_parse_token s = false -> x_parsing_done s = false ->
+  dbs_norm (x_parser_bs s) = true -> inv (parse_ok cfg lv crc s).
+Proof.
+  intros I M0 N0 T0 PD NB. unfold parse_ok.
+  set (p := d_pos (x_parser_bs s)).
+  set (s1 := set_order_q (x_order_q s ++ [mkhead p lv crc]) s).
+  assert (V1 : view_eq s s1) by (subst s1; view_tac).
+  assert (I1 : inv s1) by (eapply inv_view; eauto).
+  assert (E1 : masters s1 = 0%nat /\ nparse s1 = 0%nat /\ x_parse_token s1 = false /\ x_parsing_done s1 = false /\ x_parser_bs s1 = x_parser_bs s)
+    by (subst s1; unfold masters, all_jobs, nparse in *; nrm; auto).
+  clearbody s1. clear V1 I M0 N0 T0 PD. destruct E1 as (M1 & N1 & T1 & PD1 & PB1).
+  set (s2 := set_unords (discard_below p (x_unords s1)) s1).
+  destruct (inv_detached s1 (discard_below p (x_unords s1))) as (I2 & M2); auto.
+  { apply discard_below_spec. } { apply nodup_discard. apply I1. }
+  fold s2 in I2, M2.
+  assert (E2 : nparse s2 = 0%nat /\ x_parse_token s2 = false /\ x_parsing_done s2 = false /\ x_parser_bs s2 = x_parser_bs s)
+    by (subst s2; unfold nparse in *; nrm; auto).
+  destruct E2 as (N2 & T2 & PD2 & PB2). clearbody s2. clear I1.
+  assert (M2' : masters s2 = 0%nat) by lia. clear M2 M1.
+  assert (NEW : inv (set_retr_q (mkrjob p (x_parser_bs s2) None :: x_retr_q s2) s2)).
+  { apply inv_requeue; auto.
+    - unfold job_ok; simpl. rewrite PB2. subst p. unfold d_pos; simpl. repeat split; auto; try lia; discriminate.
+    - simpl. apply I2. auto.
+    - simpl. discriminate.
+    - rewrite T2, N2, M2'. simpl. lia. }
+  destruct (qmin u_base pos_lt (unord_q s2)) as [u|] eqn:Q; [|exact NEW].
+  destruct (pos_eq (u_base u) p) eqn:PE; [|exact NEW]. clear NEW.
+  apply pos_eq_spec in PE. apply qmin_In in Q. unfold unord_q in Q. apply filter_In in Q. destruct Q as [Hu Qi].
+  assert (UO : unord_ok u) by (destruct I2 as [_ _ _ _ Iu _ _ _ _ _ _ _ _]; rewrite Forall_forall in Iu; auto).
+  destruct UO as (O1 & O2 & O3). destruct (O1 Qi) as (Oe & Ob & Ol).
+  assert (HD : x_head_offs s2 <= d_off (u_end u)).
+  { assert (x_head_offs s2 <= d_off (x_parser_bs s2)) by (apply I2; auto).
+    rewrite PE in Ob. subst p. unfold d_pos in Ob. simpl in Ob. rewrite PB2 in *. unfold dbs_ok, dbs_norm in *. lia. }
+  destruct (inv_advance cfg (u_end u) s2 I2 M2' HD) as (I3 & M3 & H3a & H3b & ST & RP).
+  assert (RJ : forall j, In j (run_jobs (x_running s2)) -> links (u_id u) j = true -> u_complete u = false -> u_end u = r_cur j).
+  { intros j Hj L C. destruct I2 as [_ _ _ _ _ _ Ij _ _ _ _ _ _]. rewrite Forall_forall in Ij.
+    destruct (Ij j) as (_ & _ & _ & _ & J5); [unfold all_jobs; apply in_or_app; auto|].
+    unfold links in L. apply optN_eqb_eq in L. destruct (J5 _ u L Hu eq_refl) as [_ B]. auto. }
+  set (s3 := advance cfg (u_end u) s2) in *.
+  assert (E3 : nparse s3 = 0%nat /\ x_parse_token s3 = false /\ x_running s3 = x_running s2)
+    by (subst s3; unfold nparse in *; nrm; auto).
+  destruct E3 as (N3 & T3 & R3). clearbody s3.
+  destruct (u_complete u) eqn:UC.
+  - eapply inv_view; [apply view_give_unit|].
+    assert (I4 : inv (set_unords (del_unord (u_id u) (x_unords s3)) s3) /\ (masters (set_unords (del_unord (u_id u) (x_unords s3)) s3) <= masters s3)%nat).
+    { apply inv_stems; auto.
+      - unfold del_unord. intros v Hv. apply filter_In in Hv. exists v. split; [tauto|apply stems_refl].
+      - unfold del_unord. apply nodup_map_filter. apply I3. }
+    destruct I4 as (I4 & M4).
+    eapply inv_view; [|apply (inv_set_token _ I4); [lia|unfold nparse in *; nrm; auto]]. view_tac.
+  - eapply inv_view; [apply view_give_unit|].
+    apply inv_adopt; auto. intros j Hj L. rewrite R3 in Hj. rewrite <- (RJ j Hj L eq_refl). exact H3b.
+Qed.
+
+Lemma inv_parse1 cfg att r st st' : inv st -> parse1 cfg att r st = Some st' -> inv st'.
+Proof.
+  intros I H. unfold parse1 in H.
+  destruct (del_run (CParse att) st) as [s1|] eqn:D; [|discriminate].
+  destruct (inv_del_parse _ _ _ D I) as (I1 & M1 & N1 & T1 & PD1). clear I D.
+  set (aend := att_end att s1) in *. clearbody aend.
+  match type of H with (if ?c then _ else _) = _ => destruct c eqn:C; [|discriminate] end. bool_hyps.
+  assert (V2 : view_eq s1 (detach att s1)) by apply view_detach.
+  assert (I2 : inv (detach att s1)) by (eapply inv_view; eauto).
+  assert (E2 : masters (detach att s1) = 0%nat /\ nparse (detach att s1) = 0%nat /\ x_parse_token (detach att s1) = false /\
+               x_parsing_done (detach att s1) = false /\ x_parser_bs (detach att s1) = x_parser_bs s1)
+    by (unfold masters, all_jobs, nparse in *; nrm; auto).
+  set (s2 := detach att s1) in *. destruct E2 as (M2 & N2 & T2 & PD2 & PB2). clearbody s2.
+  assert (HD : x_head_offs s2 <= d_off (res_bs r)).
+  { assert (x_head_offs s2 <= d_off (x_parser_bs s2)) by (apply I2; auto). rewrite PB2 in *.
+    match goal with K : (d_off (x_parser_bs s1) <=? d_off (res_bs r)) = true |- _ => apply N.leb_le in K end. lia. }
+  destruct (inv_advance cfg (res_bs r) s2 I2 M2 HD) as (I3 & M3 & H3a & H3b & ST & RP).
+  assert (E3 : nparse (advance cfg (res_bs r) s2) = 0%nat /\ x_parse_token (advance cfg (res_bs r) s2) = false /\
+               x_parsing_done (advance cfg (res_bs r) s2) = false)
+    by (unfold nparse in *; nrm; auto).
+  assert (PB3 : x_parser_bs (advance cfg (res_bs r) s2) = res_bs r) by (unfold advance; nrm; auto).
+  set (s3 := advance cfg (res_bs r) s2) in *. destruct E3 as (N3 & T3 & PD3). clearbody s3.
+  destruct r as [bs ps|bs g|bs code|bs ps lv crc]; simpl res_bs in *.
+  - match type of H with (if ?c then _ else _) = _ => destruct c; [|discriminate] end. inversion H; subst st'.
+    eapply inv_view; [|apply (inv_set_token s3 I3 M3 N3)]. view_tac.
+  - match type of H with (if ?c then _ else _) = _ => destruct c; [|discriminate] end. inversion H; subst st'.
+    apply inv_parse_finish; auto.
+  - match type of H with (if ?c then _ else _) = _ => destruct c; [discriminate|] end. inversion H; subst st'.
+    eapply inv_view; [|exact I3]. unfold fail. view_tac.
+  - match type of H with (if ?c then _ else _) = _ => destruct c eqn:NB; [|discriminate] end. inversion H; subst st'.
+    apply inv_parse_ok; unfold masters, all_jobs, nparse in *; nrm; auto.
+    eapply inv_view; [|exact I3]. view_tac.
+    rewrite PB3. exact NB.
+Qed.
+
+Lemma inv_init n tin tout ultra : inv (init_state n tin tout ultra).
+Proof.
+  unfold init_state. constructor; unfold all_jobs, nparse; simpl; auto; try constructor; try lia; try discriminate.
+Qed.
+
+Theorem inv_step cfg st e st' : cfg_safe cfg -> inv st -> step cfg st e = Some st' -> inv st'.
+Proof.
+  intros C I H. unfold step in H. destruct (x_failed st); [discriminate|].
+  destruct e.
+  - eapply inv_input; eauto.
+  - eapply inv_eof; eauto.
+  - eapply inv_written; eauto.
+  - eapply inv_parse0; eauto.
+  - eapply inv_parse1; eauto.
+  - eapply inv_retr0; eauto.
+  - eapply inv_retr1; eauto.
+  - eapply inv_retr2; eauto.
+  - eapply inv_emit0; eauto.
+  - eapply inv_emit1; eauto.
+  - eapply inv_reorder; eauto.
+  - eapply inv_scan0; eauto.
+  - eapply inv_scan1; eauto.
+Qed.
+
+Theorem inv_reach cfg n tin tout ultra st : cfg_safe cfg -> reach cfg (init_state n tin tout ultra) st -> inv st.
+Proof.
+  intros C R. induction R; [apply inv_init|eapply inv_step; eauto].
+Qed.
+
+(* Finding F4, positive part: with the offset tests in place no bit stream is ever
+   attached outside the live input, and no queued job lies below head_offs. *)
+Theorem no_bad_attach cfg n tin tout ultra st :
+  cfg_safe cfg -> reach cfg (init_state n tin tout ultra) st ->
+  x_bad_attach st = false /\ Forall (fun j => x_head_offs st <= d_off (r_cur j)) (x_retr_q st) /\
+  Forall (fun s => x_head_offs st <= d_off s) (x_scan_q st).
+Proof.
+  intros C R. pose proof (inv_reach _ _ _ _ _ _ C R) as [Ic Ip Ir Is Iu If Ij Il Ie Im Id Ib Iq].
+  repeat split; auto. eapply Forall_impl; [|exact Is]. simpl. tauto.
+Qed.
